@@ -70,7 +70,7 @@ func runC32(r *simkit.Run) {
 		}
 		switch {
 		case concurrent:
-			st.finding = "C32-F2"
+			st.finding = "C32-F3"
 		case commitFault:
 			st.finding = "C32-F1"
 		}
@@ -174,6 +174,42 @@ func runC32(r *simkit.Run) {
 					return
 				}
 				committed[name] = 0
+				applied++
+				continue
+			}
+			if !strict && allUp && budget == 0 && tp.Chance(1, 3) {
+				// two administrators change different namespaces at the same time
+				w.fault = nil
+				other := names[0]
+				if name == other {
+					other = names[1]
+				}
+				v1, v2 := nextVersion, nextVersion+1
+				nextVersion += 2
+				p1, p2 := committed[name], committed[other]
+				var err2 error
+				done2 := make(chan struct{})
+				r.Go(fmt.Sprintf("control-b%d", c), func() {
+					defer close(done2)
+					simkit.Pause(r, "start:control-b")
+					err2 = service.ModifyNamespace(nsConfig(other, v2), w.cfg, cluster)
+				})
+				err1 := service.ModifyNamespace(nsConfig(name, v1), w.cfg, cluster)
+				<-done2 // blocked, not parked: the scheduler advances the clock for the other task's timeouts
+				r.Fault("concurrent-changes")
+				r.Sched("op", fmt.Sprintf("concurrent/%v/%v", err1 == nil, err2 == nil))
+				r.Logf("concurrent ModifyNamespace(%s v%d) -> %s and ModifyNamespace(%s v%d) -> %s; %s | %s", name, v1, errTextW3(err1), other, v2, errTextW3(err2), w.state(name), w.state(other))
+				e1, e2 := v1, v2
+				if err1 != nil {
+					e1 = p1
+				}
+				if err2 != nil {
+					e2 = p2
+				}
+				if !check("concurrent change", name, e1, err1, false, true) || !check("concurrent change", other, e2, err2, false, true) {
+					return
+				}
+				committed[name], committed[other] = e1, e2
 				applied++
 				continue
 			}
